@@ -442,16 +442,17 @@ func checkJSONOkUse(c *core.Ctx) {
 		n++
 		key := p.FName(fn)
 		c.SawFunc(key)
-		if lineLoop == nil {
-			c.Unknown("OKUSE", key, fieldLoop.Pos(), "the call is not inside a per-line loop")
-			continue
-		}
+		// the unit that handles one line: the body of the loop around the field loop, or — in a function that is
+		// handed a single line — the function itself
 		var body *ast.BlockStmt
+		ftype := &ast.FuncType{Params: &ast.FieldList{}}
 		switch l := lineLoop.(type) {
 		case *ast.ForStmt:
 			body = l.Body
 		case *ast.RangeStmt:
 			body = l.Body
+		default:
+			body, ftype, lineLoop = fn.Decl.Body, fn.Decl.Type, fieldLoop
 		}
 		in := newInterp(p, fn)
 		in.MaxPaths = 4000
@@ -473,7 +474,7 @@ func checkJSONOkUse(c *core.Ctx) {
 			}
 			return nil, false
 		}, errorfHook)
-		outs, err := in.Run(&ast.FuncType{Params: &ast.FieldList{}}, nil, body, nil, "")
+		outs, err := in.Run(ftype, nil, body, nil, "")
 		if err != nil {
 			c.Unknown("OKUSE", key, lineLoop.Pos(), err.Error())
 			continue
@@ -502,6 +503,13 @@ func checkJSONOkUse(c *core.Ctx) {
 				for _, v := range o.Values {
 					if isNonNilErr(v) && strings.HasPrefix(v.Canon(), "error@") {
 						errSet = true
+					}
+					// a per-line result value: its error and record fields
+					if ev := o.Field(v, "err"); ev != nil && isNonNilErr(ev) {
+						errSet = true
+					}
+					if rv := o.Field(v, "record"); rv != nil && rv.Canon() == "RECORD" {
+						recSet = true
 					}
 				}
 			}
